@@ -53,7 +53,7 @@ def sortedNat (xs : List Nat) : Bool := xs.Pairwise (· ≤ ·)
 
 def parseDtype (s : String) : Except String Dtype :=
   match s with
-  | "float32" => .ok .f32 | "float64" => .ok .f64
+  | "float32" => .ok .f32 | "float64" => .ok .f64 | "float16" => .ok .f16 | "bfloat16" => .ok .bf16
   | _ => .error s!"bad-dtype:{s}"
 
 def parsePdim (s : String) : Except String (Option Nat) :=
